@@ -18,7 +18,16 @@ RULE = (
     "per field of the struct). Obligation: every pair of R is in K or in the frozen exemption table (one reason each). "
     "R4 in CmdBuild::exec and CmdCheck::exec no call that writes an output (write_file_if_changed, gen_filelist, "
     "fs::write, Metadata::save_build_info) is reachable in the CFG after Incremental::save; R5 the `cacheable` argument of "
-    "Incremental::capture at every call site derives from Vec::is_empty() of the value returned by analyze_pass1."
+    "Incremental::capture at every call site derives from Vec::is_empty() of the value returned by analyze_pass1. "
+    "R6 miss-set construction in Incremental::open: the set is extended exactly once with FileEntry.dependents of its members, and no "
+    "other addition to it is reachable after that collection started (a file added later would leave its dependents restored). "
+    "R7 TypeDag::dependent_files, which feeds those saved dependents, closes them transitively (a full graph traversal started from "
+    "every node), because open performs a single lookup per member. R8 = C29 R1: gc's referenced set covers every blob-bearing "
+    "FileEntry field (a collected diagnostics blob silently drops the warm-run warning replay). R9 saved entries whose source is no "
+    "longer part of the build (removed, renamed) are enumerated and seed the miss set before the closure. R10 collect_diagnosed stores "
+    "every kind of Diag (fresh and replayed), since the blob it produces replaces the one carried over for a restored file. R11 in "
+    "pipeline::analyze every site that sets context.skip = true (pass2 will not run) is followed on every path by "
+    "Incremental::invalidate of that file unless no cache is open."
 )
 
 CRATES = None  # whole workspace: R1 quantifies over every function of the consumer crates
@@ -236,6 +245,9 @@ def run(world, tier, info, only=None):
                    "key_pairs": sorted("%s.%s" % k for k in K), "read_pairs": sorted("%s.%s" % k for k in R)}
 
     commit_order(ck, w, "R4")
+    miss_set_rules(ck, w)
+    diagnostics_rules(ck, w)
+    gc_cross_listing(ck, w)
     # save_build_info (generated_files list) is written by main after exec
     # ---------------- R5: capture only clean pass 1 ---------------------------------------------------
     caps = []
@@ -274,3 +286,230 @@ def commit_order(ck, w, R):
             ck.ob(R, "no-output-after-save:%s" % cmd.split("::")[-2], not late, site(w.fns[cmd], t["l"]),
                   "no output-writing call is reachable after the manifest is saved" if not late else
                   "output written after the manifest was committed: %s at line %s" % (late[0][1]["callee"], late[0][1]["l"]))
+
+
+MISS_MUT = r"hash::set::HashSet::<T, S, A>::insert$|hash::set::HashSet<T, S, A> as core::iter::traits::collect::Extend<T>>::extend$"
+OPEN = "veryl::incremental::Incremental::open"
+
+
+def _named(f, op):
+    """debug name of the local behind `&mut x` / `&x` / a copy"""
+    if op[0] == "k":
+        return None
+    l = op[1][0]
+    for _ in range(8):
+        if f.name(l):
+            return f.name(l)
+        d = f.def_of(l)
+        if not d or d[0] != "s":
+            return None
+        rv = f.rvalue_at(d)
+        if rv[0] in ("ref", "ptr"):
+            l = rv[2][0]
+        elif rv[0] == "use" and rv[1][0] != "k":
+            l = rv[1][1][0]
+        else:
+            return None
+    return None
+
+
+def miss_set_rules(ck, w):
+    """R6-R9: construction of the miss set in Incremental::open and the closure of the dependents map."""
+    import flow
+    if OPEN not in w.fns:
+        ck.missing("R6", OPEN)
+        return
+    so = w.fns[OPEN]
+    f = Fn(w.mir(OPEN))
+    muts = [(bi, t) for bi, t in f.calls(MISS_MUT) if _named(f, t["args"][0]) == "miss"]
+    ck.floor("R6", "mutations of `miss` in Incremental::open", len(muts), 3)
+    # the closure step: miss.extend(<values derived from entry.dependents>)
+    closure = []
+    for bi, t in muts:
+        if t["callee"].endswith("::extend"):
+            nm = _named(f, t["args"][1])
+            pv = f.prov(t["args"][1], depth=20)
+            if nm == "dependents" or any(x[0] == "field" and x[1] == "dependents" for x in pv):
+                closure.append((bi, t))
+    ck.ob("R6", "closure-step-exists", len(closure) == 1, site(so), "the miss set is extended once with the saved dependents of its members (found %d such steps)" % len(closure))
+    if len(closure) == 1:
+        cb, ct = closure[0]
+        # the dependents are collected by a loop over `miss` that looks each member up in the store
+        dep_fill = [(bi, t) for bi, t in f.calls(r"Extend<.*>>::extend$|HashSet::<T, S, A>::insert$") if _named(f, t["args"][0]) == "dependents"]
+        ok_src = False
+        for bi, t in dep_fill:
+            pv = f.prov(t["args"][1], depth=24)
+            if any(x[0] == "field" and x[1] == "dependents" and x[2].endswith("FileEntry") for x in pv):
+                ok_src = True
+        ck.ob("R6", "closure-reads-saved-dependents", ok_src, site(so, ct["l"]), "the closure step adds FileEntry.dependents of the store's saved entries")
+        # no seed is added after the closure step was computed: every other mutation of miss precedes the first read of miss by the closure loop
+        first_read = None
+        for head, lt, some, none, item in flow.loops_over(f):
+            if _named(f, lt["args"][0]) == "miss" or "miss" == _iter_source_name(f, lt["args"][0]):
+                if any(b == fb for fb, _ in dep_fill for b in f.reach_from(some, avoid=[head])):
+                    first_read = head
+        if first_read is None:
+            ck.ob("R6", "closure-loop", None, site(so), "the loop that walks `miss` to collect dependents was not recognised")
+        else:
+            late = [(bi, t) for bi, t in muts if bi != cb and f.reaches(first_read, bi)]
+            ck.ob("R6", "no-seed-after-closure", not late, site(so, ct["l"]),
+                  "every other addition to the miss set happens before its dependents are collected" if not late else
+                  "a file is added to the miss set at line %s after the dependents of the miss set were collected: its dependents are restored "
+                  "although what they resolved against is re-analysed" % late[0][1]["l"])
+    # R9 removed / renamed files
+    enumerators = []
+    for p, s in w.fns.items():
+        if s["crate"] != "veryl_cache" or not p.startswith("veryl_cache::Store::") or s.get("alias_of"):
+            continue
+        if ["veryl_cache::Manifest", "files"] in [list(x) for x in s["fr"]] and any(re.search(r"BTreeMap::<K, V, A>::(keys|iter|values|into_keys)$|HashMap::<K, V, S, A>::(keys|iter|values)$", c["c"] or "") for c in s["calls"]):
+            if not re.search(r"::(gc|save|open_with_lock)$", p):
+                enumerators.append(p)
+    used = [(bi, t) for bi, t in f.calls() if t.get("callee") in enumerators]
+    ok9 = False
+    for bi, t in used:
+        # some mutation of miss is inside a loop over this enumerator's result and precedes the closure
+        for head, lt, some, none, item in flow.loops_over(f):
+            r, pth = flow.access_path(f, lt["args"][0], extra_transparent=re.compile(r"Iterator::(map|filter|filter_map|cloned|copied)$"))
+            if r[0] == "call" and r[1] in enumerators:
+                body = f.reach_from(some, avoid=[head])
+                if any(mb in body for mb, _ in muts):
+                    ok9 = True
+    ck.ob("R9", "removed-files-seed-the-miss-set", ok9, site(so),
+          "saved entries whose source is no longer part of the build are added to the miss set (enumerated through %s)" % [e.split("::")[-1] for e in enumerators] if ok9 else
+          "Incremental::open never enumerates the saved entries (store enumerators available: %s): the dependents of a removed or renamed file are "
+          "restored from the cache" % [e.split("::")[-1] for e in enumerators])
+    # R7 transitive closure of the dependents map
+    DF = "veryl_analyzer::type_dag::TypeDag::dependent_files"
+    if DF not in w.fns:
+        ck.missing("R7", DF)
+        return
+    sd = w.fns[DF]
+    g = Fn(w.mir(DF))
+    trav = g.calls(r"petgraph::visit::(traversal::)?(Dfs|Bfs|DfsPostOrder)::<.*>::(next|new)$")
+    direct = g.calls(r"::(children|parents|neighbors|neighbors_directed|edges|edges_directed)$")
+    nexts = [t for _, t in trav if (t.get("callee") or "").endswith("::next")]
+    # the traversal is drained (its next() sits on a cycle) and started once per node (its new() sits inside a loop over the nodes)
+    in_loop = any(g.reaches(t["to"], bi) for bi, t in trav if t["callee"].endswith("::next") and t.get("to") is not None)
+    per_node = False
+    for head, lt, some, none, item in flow.loops_over(g):
+        body = g.reach_from(some, avoid=[head])
+        if any(bi in body for bi, t in trav if t["callee"].endswith("::new")):
+            per_node = True
+    in_loop = in_loop and per_node
+    if nexts and in_loop:
+        ck.ob("R7", "dependents-map-transitively-closed", True, site(sd), "dependent_files walks the file graph with a full traversal (%s) from every node" % nexts[0]["callee"].split("::")[-2])
+    elif direct and not nexts:
+        ck.ob("R7", "dependents-map-transitively-closed", False, site(sd, direct[0][1]["l"]),
+              "dependent_files records direct %s only, while Incremental::open extends the miss set by one lookup per member: files two or more "
+              "dependency steps away from an edit are restored" % direct[0][1]["callee"].split("::")[-1])
+    else:
+        ck.ob("R7", "dependents-map-transitively-closed", None, site(sd), "traversal shape not recognised")
+
+
+def _iter_source_name(f, op):
+    import flow
+    if op[0] == "k":
+        return None
+    l = op[1][0]
+    for _ in range(10):
+        if f.name(l) and f.name(l) != "iter":
+            return f.name(l)
+        d = f.def_of(l)
+        if not d:
+            return None
+        if d[0] == "c":
+            t = f.blocks[d[1]]["t"]
+            if t["args"] and t["args"][0][0] != "k":
+                l = t["args"][0][1][0]
+                continue
+            return None
+        rv = f.rvalue_at(d)
+        if rv[0] in ("ref", "ptr"):
+            l = rv[2][0]
+        elif rv[0] == "use" and rv[1][0] != "k":
+            l = rv[1][1][0]
+        else:
+            return None
+    return None
+
+
+def diagnostics_rules(ck, w):
+    """R10 every kind of reported diagnostic is stored for the warm run; R11 a file whose pass2 is skipped keeps no fragment."""
+    import flow
+    CD = "veryl::pipeline::collect_diagnosed"
+    AN = "veryl::pipeline::analyze"
+    if CD not in w.fns:
+        ck.missing("R10", CD)
+    else:
+        s = w.fns[CD]
+        f = Fn(w.mir(CD))
+        sws = flow.enum_switches(f, r"veryl::pipeline::Diag$")
+        pushes = [bi for bi, t in f.calls(r"alloc::vec::Vec::<T, A>::push$")]
+        if not sws:
+            # no classification of Diag at all: every diagnostic takes the same path
+            ck.ob("R10", "every-diag-kind-stored", bool(pushes), site(s), "collect_diagnosed stores diagnostics without telling kinds apart")
+        for bb, t in sws[:1]:
+            arm, wc = flow.arms(f, t)
+            for v in t.get("variants", []):
+                tg = arm.get(v)
+                reach = tg is not None and any(f.reaches(tg, pb, avoid=_loop_heads(f, flow)) for pb in pushes)
+                ck.ob("R10", "diag-kind-stored:" + v, bool(reach), site(s, t["l"]),
+                      "a Diag::%s reaches the push into the per-file list" % v if reach else
+                      "Diag::%s diagnostics are dropped when a file's diagnostics are stored: after a warm run replaces the blob they are never "
+                      "reported again" % v)
+    if AN not in w.fns:
+        ck.missing("R11", AN)
+        return
+    s = w.fns[AN]
+    f = Fn(w.mir(AN))
+    writes = [(bi, si, st) for bi, si, st in flow.field_writes(f, r"context::Context$", "skip")
+              if st[2][0] == "use" and st[2][1][0] == "k" and str(st[2][1][1].get("int")) in ("1", "true")]
+    ck.floor("R11", "sites that mark a file's pass2 as skipped", len(writes), 1)
+    inv = [bi for bi, t in f.calls(r"^veryl::incremental::Incremental::invalidate$")]
+    heads = _loop_heads(f, flow)
+    for n, (bi, si, st) in enumerate(writes):
+        try:
+            paths = flow.enumerate_paths(f, bi, [h for h in heads] + f.returns(), avoid=inv)
+        except OverflowError:
+            ck.ob("R11", "skip-drops-fragment@%d" % (n + 1), None, site(s, st[3]), "too many paths")
+            continue
+        bad = 0
+        for path in paths:
+            fx = flow.path_facts(f, path)
+            none_inc = any(x[0] == "isvariant" and x[2] == "None" and "incremental" in repr(x[1]) for x in fx)
+            if not none_inc:
+                bad += 1
+        ck.ob("R11", "skip-drops-fragment@%d" % (n + 1), bad == 0, site(s, st[3]),
+              "a file whose pass2 is skipped has its captured fragment invalidated (unless no cache is open)" if bad == 0 else
+              "context.skip = true is not followed by Incremental::invalidate on %d path(s): the pass1 fragment of a file nobody ran pass2 on "
+              "is saved and restored by the next warm run" % bad)
+
+
+def _loop_heads(f, flow):
+    return [h for h, *_ in flow.loops_over(f)]
+
+
+def gc_cross_listing(ck, w):
+    """R8 = C29 R1 (gc's referenced set covers every blob-bearing field): losing a referenced diagnostics blob makes the next
+    warm run silently drop the warnings replay, which is an incremental != clean difference."""
+    import c29
+    import core
+    got = []
+
+    class Cap(core.Check):
+        def finish(self, *a, **k):
+            got.append(self)
+            return 0
+    old = c29.Check
+    c29.Check = Cap
+    try:
+        c29.run(w, ck.tier, {}, None)
+    finally:
+        c29.Check = old
+    n = 0
+    for sub in got:
+        for o in sub.obs:
+            if o["rule"] == "R1":
+                n += 1
+                ck.obs.append({"rule": "R8", "key": o["key"].replace("C29.R1/", "C04.R8/"), "site": o["site"], "verdict": o["verdict"], "detail": o["detail"]})
+    ck.floor("R8", "gc coverage obligations shared with C29 R1", n, 2)
